@@ -24,7 +24,7 @@ Section Blocks.
   Lemma mdrel_erel e1 e2 : mdrel e1 e2 -> erel e1 e2.
   Proof.
     destruct e1, e2; cbn; try contradiction. intros [H1 H2]. unfold erel. cbn.
-    rewrite (trel_tx _ _ H1), (trel_tx _ _ H2). reflexivity.
+    rewrite (trel_tx _ _ H1), (trel_outer _ _ H2). reflexivity.
   Qed.
 
   Lemma metadata_entry_rel : MR (orel mdrel) (metadata_entry cfg) (metadata_entry cfg).
